@@ -12,6 +12,8 @@ func init() { register("C30", c30) }
 
 func c30(p *core.Program, r *core.Report) {
 	r.Rule("R1", "one codec, one column order: API.ExportCSV writes records only through encoding/csv.Writer.Write as {row, column} (the row text derived from the row id or its key, the column text from the column id or its key) and checks the writer's Error() after Flush; the import command reads only through encoding/csv.Reader and takes the row from record[0] and the column from record[1]; the key-or-id choice on both sides comes from the same schema options (field keys for rows, index keys for columns)")
+	r.Rule("R2", "every parsed record is buffered: in each record-reading loop of the import command, once a field of the loop's Bit/FieldValue was assigned, the iteration appends that value to a buffer or leaves the function")
+	c30EveryRecordBuffered(p, r)
 	r.NotDecided = "the round trip itself for generated contents (bits and keys after export followed by import)"
 	pk, ctl := p.Pkg(""), p.Pkg("ctl")
 	if pk == nil || ctl == nil {
